@@ -34,11 +34,11 @@ func sexpr(x buildtag.Expr) string {
 	case *buildtag.TagExpr:
 		return "(t " + x.Tag + ")"
 	case *buildtag.NotExpr:
-		return "(! " + sexpr(x.X) + ")"
+		return "(not " + sexpr(x.X) + ")"
 	case *buildtag.AndExpr:
-		return "(& " + sexpr(x.X) + " " + sexpr(x.Y) + ")"
+		return "(and " + sexpr(x.X) + " " + sexpr(x.Y) + ")"
 	case *buildtag.OrExpr:
-		return "(| " + sexpr(x.X) + " " + sexpr(x.Y) + ")"
+		return "(or " + sexpr(x.X) + " " + sexpr(x.Y) + ")"
 	}
 	return "(? unknown)"
 }
@@ -48,11 +48,11 @@ func gsexpr(x constraint.Expr) string {
 	case *constraint.TagExpr:
 		return "(t " + x.Tag + ")"
 	case *constraint.NotExpr:
-		return "(! " + gsexpr(x.X) + ")"
+		return "(not " + gsexpr(x.X) + ")"
 	case *constraint.AndExpr:
-		return "(& " + gsexpr(x.X) + " " + gsexpr(x.Y) + ")"
+		return "(and " + gsexpr(x.X) + " " + gsexpr(x.Y) + ")"
 	case *constraint.OrExpr:
-		return "(| " + gsexpr(x.X) + " " + gsexpr(x.Y) + ")"
+		return "(or " + gsexpr(x.X) + " " + gsexpr(x.Y) + ")"
 	}
 	return "(? unknown)"
 }
